@@ -22,12 +22,18 @@ def extract(ctx):
              wr.has_raw(r"case\s+'s':\s*outputSymbol\(destination,\s*symbolTable\.decode\(value\),\s*true\);"))
     ctx.fact("ReadStreamCSV.h: a symbol column stores the element returned by nextElement unchanged (symbolTable.encode(element))",
              rd.has_raw(r"case\s+'s':\s*\{\s*tuple\[inputMap\[column\]\]\s*=\s*symbolTable\.encode\(element\);"))
+    rs = Source(os.path.join(ctx.repo, 'src/include/souffle/io/ReadStream.h'))
+    rq, _ = rs.block(r'std::string\s+readQuotedSymbol\s*\(\s*const\s+std::string&\s*source\s*,\s*std::size_t\s+pos\s*,\s*std::size_t\*\s*charactersRead\s*\)\s*\{', semi=False)
+    rq2 = strip_comments(rq)
+    rq2, n13q = re.subn(r'\bthrow\s+[^;]*;', '{ vx_throw(); return std::string(); }', rq2)
+    ctx.fact('ReadStream.h: a symbol nested in a record/ADT is read by readSymbol -> readQuotedSymbol when it starts with a double quote',
+             rs.has_raw(r"if\s*\(source\[pos\]\s*==\s*'\"'\)\s*\{\s*return\s+readQuotedSymbol\(source,\s*pos,\s*charactersRead\);"))
     ne2 = strip_comments(ne)
     ne2, n13 = re.subn(r'\bthrow\s+[^;]*;', '{ vx_throw(); return std::string(); }', ne2)
     log['R13 throw -> vx_throw(); return'] = n13
     text = ('#include "vx_csv.h"\nnamespace souffle {\nstruct CSVWriterScaffold {\n    bool rfc4180;\n' + strip_comments(out3) + '\n};\n'
             'struct CSVReaderScaffold {\n    bool rfc4180;\n    std::string delimiter;\n    std::size_t lineNumber;\n'
-            '    bool readNextLine(std::string&, bool&) { return vx_readNextLine(); }\n' + ne2 + '\n};\n}\n')
+            '    bool readNextLine(std::string&, bool&) { return vx_readNextLine(); }\n' + ne2 + '\n' + rq2 + '\n};\n}\n')
     ctx.write('extracted.hpp', text)
     ctx.rewrites.update(log)
     ctx.dropped += ['everything of WriteStreamCSV/ReadStreamCSV except outputSymbol(dest, value, fieldValue) and nextElement(line, start, wasCRLF)',
@@ -47,6 +53,11 @@ def harnesses(ctx):
                         bounded={'line_length': ml, 'note': 'all byte values except NUL; any single-character delimiter; rfc4180 on and off; any start position'},
                         clause='nextElement never reads outside the line and either reports an error or returns a field of the line (no crash, no hang: loops bounded by the line)',
                         funcs=['souffle::ReadStreamCSV::nextElement'])]
+    hs.append(Harness('csv.roundtrip.nested', 'harness_nested', cpp=cpp, c=c, defines=['VX_MAXLEN=%d' % min(nq, 4), 'VX_CAP=%d' % (4 * min(nq, 4) + 12), 'VX_RFC=1'],
+                      enforce='h_csv_nested', unwind=4 * min(nq, 4) + 14, must_have=['postcondition'], timeout=1500,
+                      bounded={'symbol_length': min(nq, 4), 'note': 'all byte values except NUL, CR, LF; RFC 4180 mode'},
+                      clause='a symbol NESTED in a record (written by outputSymbol(.., fieldValue=false) inside the quoted record field, un-doubled by nextElement, read by readQuotedSymbol) is read back unchanged',
+                      funcs=['souffle::WriteStreamCSV::outputSymbol', 'souffle::ReadStreamCSV::nextElement', 'souffle::ReadStream::readQuotedSymbol']))
     for name, defs, what in (('rfc4180', ['VX_RFC=1'], 'RFC 4180 quoting'), ('plain', ['VX_RFC=0'], 'plain delimiter-separated text (symbols without the delimiter)')):
         hs.append(Harness('csv.roundtrip.' + name, 'harness_roundtrip', cpp=cpp, c=c, defines=['VX_MAXLEN=%d' % nq, 'VX_CAP=%d' % cap] + defs,
                           enforce='h_csv_roundtrip', unwind=cap + 2, must_have=['postcondition'], timeout=1500,
@@ -60,6 +71,8 @@ def replay(ctx, h, r, ins, tr):
     last = (tr or {}).get('uint', {})
     if h.name == 'csv.nextElement':
         return replay_line(ctx, h, last, (tr or {}).get('last', {}))
+    if h.name == 'csv.roundtrip.nested':
+        return replay_nested(ctx, h, last)
     try:
         n = int(last.get('in_len'))
         def ch(i):
@@ -79,6 +92,26 @@ def replay(ctx, h, r, ins, tr):
     rfc = '1' if 'VX_RFC=1' in h.defines else '0'
     q = subprocess.run([exe, rfc, str(delim), sym.hex()], stdout=subprocess.PIPE, stderr=subprocess.STDOUT, cwd=ctx.work)
     return q.returncode == 1, 'real WriteStreamCSV/ReadStreamCSV, rfc4180=%s delimiter=%r symbol=%r: %s' % (rfc, chr(delim), sym, q.stdout.decode().strip()[-300:])
+
+
+def replay_nested(ctx, h, last):
+    def ch(i):
+        for k in ('in_sym[%d]' % i, 'in_sym[%dl]' % i, 'in_sym[%dL]' % i):
+            if k in last:
+                return last[k] & 255
+        return 0
+    try:
+        n = int(last.get('in_len'))
+        sym = bytes(ch(i) for i in range(n))
+    except Exception as e:
+        return None, 'no inputs in trace: %r' % (e,)
+    exe = os.path.join(ctx.work, 'replay_csv_nested')
+    p = subprocess.run(['g++', '-std=c++17', '-fopenmp', '-I', os.path.join(ctx.repo, 'src/include'), os.path.join(HERE, '..', '..', 'replay', 'csv', 'replay_nested.cpp'), '-o', exe],
+                       stdout=subprocess.PIPE, stderr=subprocess.STDOUT)
+    if p.returncode != 0:
+        return None, 'native replay build failed: ' + p.stdout.decode()[-400:]
+    q = subprocess.run([exe, sym.hex()], stdout=subprocess.PIPE, stderr=subprocess.STDOUT, cwd=ctx.work)
+    return q.returncode == 1, 'real WriteStreamCSV::outputSymbol / ReadStreamCSV::nextElement / ReadStream::readQuotedSymbol on symbol %r: %s' % (sym, q.stdout.decode(errors='replace').strip()[-300:])
 
 
 def replay_line(ctx, h, last, raw):
@@ -114,6 +147,7 @@ ASSUMPTIONS = [
 TRUSTED = ['units/csv/vx_csv.h', 'rewrite rule R13']
 
 MUTANTS = [
+    dict(name='writer: nested symbol quote without backslash', file=WR, find=r'if \(!fieldValue\) \{\s*destination << .\\\\.;\s*\}', repl='', expect=r'csv\.roundtrip\.nested', props=['C17']),
     dict(name='nextElement: record loop not bounded by the line', file=RD, find=r'\(record_parens != 0 && end < line\.length\(\)\)', repl='record_parens != 0', expect=r'csv\.nextElement', props=['C18']),
     dict(name='reader: keeps both quotes of a doubled quote', file=RD, find=r"(// two double-quote => one double-quote\s*element\.push_back\('\"'\);)", repl=r"\1 element.push_back('\"');", expect=r'csv\.roundtrip\.rfc4180', props=['C17']),
     dict(name='reader: start not advanced past delimiter', file=RD, find=r'start = pos \+ delimiter\.size\(\);', repl='start = pos;', expect=r'csv\.roundtrip\.rfc4180', props=['C17']),
